@@ -313,3 +313,31 @@ func H03_host() {
 	agree(res, c)
 	sv.Reach("compared")
 }
+
+// H03_bytes: arbitrary source text that happens to compile. A prefix and one
+// or two arbitrary positions (symbolic bytes) go through the real lexer,
+// parser, desugarer and checker; whatever is accepted is evaluated on all
+// four back ends for an arbitrary operand: equal values or all fail.
+func H03_bytes() {
+	e := Eng()
+	pre := []string{"a", "a ", "-", "[a", "a == ", "a ? b : ", "len(xs) ", "xs["}[sv.Choice("prefix", 8)]
+	n := 1
+	if sv.Thorough() || pre == "a" || pre == "a " {
+		n = 1 + sv.Choice("len", 2)
+	}
+	src := pre + anyInput(n)
+	tys := map[string]*types.Type{"a": tNum, "b": tNum, "xs": tLN}
+	names := []string{"a", "b", "xs"}
+	expr, _, cls := e.Front(src, tys, names)
+	if cls != "ok" {
+		sv.Reach("rejected")
+		sv.Assert("rejection-is-an-error-not-a-fault", hasPrefix(cls, "assert:"))
+		return
+	}
+	sv.Reach("accepted")
+	xs := val.List(tLN.List(), 2).List()
+	xs.V[0], xs.V[1] = val.Num(1), val.Num(2.5)
+	vals := map[string]*val.Val{"a": val.Num(sv.Float64("a")), "b": val.Num(sv.Float64("b")), "xs": xs.Vl()}
+	res, c := runAll(e, expr, vals, names)
+	agree(res, c)
+}
